@@ -66,7 +66,10 @@ def classify(case, obs):
 def run_tlc(tier, cfgs):
     res = {}
     with concurrent.futures.ThreadPoolExecutor(max_workers=2) as ex:
-        futs = {c: ex.submit(core.tlc, "Convert", "Convert_" + c, 4, None, 900 if tier == "quick" else 3000) for c in cfgs}
+        futs = {}
+        for c in cfgs:
+            futs[c] = ex.submit(core.tlc, "Convert", "Convert_" + c, 4, None, 900 if tier == "quick" else 3000)
+            time.sleep(0.3)      # core.tlc names its metadir by the millisecond
         for c, f in futs.items():
             res[c] = f.result()
     return res
@@ -296,6 +299,11 @@ def replay(path, seed):
         c = {"ty": T["name"], "val": case["val"], "want": case["want"], "pred": case["model_prediction"], "rc": data["descriptor"].get("rc", ""),
              "fault": case["fault"]}
         obs = o if is_crash(o) else json.loads(o)
-        if classify(c, obs)[0] is not None:
-            rc = 1
+        oc = classify(c, obs)[0]
+        if oc is not None:
+            d = dict(data["descriptor"], obs_class=oc)
+            kf = [k["id"] for k in core.load_known_findings(PROP) if core._match(k["match"], d)]
+            print("   -> %s%s" % (oc, " (known finding %s)" % kf[0] if kf else ""))
+            if not kf:
+                rc = 1
     return rc
